@@ -790,9 +790,9 @@ func (wf *WALFileType) SyncWAL(walRefresh, primaryRefresh time.Duration, walRota
 
 // RequestFlush requests WAL Flush to the WAL writer goroutine
 // if it exists, or just does the work in the same goroutine otherwise.
-// The function blocks if there are no current queued flushes, and
-// returns if there is already one queued which will handle the data
-// present in the write channel, as it will flush as soon as possible.
+// The function blocks until a flush that started after this call has
+// completed, so that everything the caller queued before is in the WAL
+// (synced) and in the primary store when it returns.
 func (wf *WALFileType) RequestFlush() {
 	verifhook.At("wal.reqflush.enter")
 	if !haveWALWriter {
@@ -801,10 +801,8 @@ func (wf *WALFileType) RequestFlush() {
 		}
 		return
 	}
-	// if there's already a queued flush, no need to queue another
-	if len(wf.txnPipe.flushChannel) > 0 {
-		return
-	}
+	// always queue a request of our own: returning because another request is already queued would
+	// acknowledge the caller's write before the flush that carries it has run
 	f := make(chan struct{})
 	wf.txnPipe.flushChannel <- f
 	verifhook.At("wal.reqflush.queued")
